@@ -174,7 +174,7 @@ func c02EncodeChunked(s *verifh.Session, chunks []string, trailers []c02Field, e
 		}
 		sb.WriteString(hx)
 		if exts && r.Intn(3) == 0 {
-			sb.WriteString(verifh.Pick(r, []string{";x", ";a=b", " ", ";q=\"z\"", "\t"}))
+			sb.WriteString(verifh.Pick(r, []string{";x", ";a=b", " ", ";q=\"z\"", "\t", ";a=b;c=d", ";x; y"}))
 		}
 		sb.WriteString("\r\n")
 		sb.WriteString(c)
